@@ -591,7 +591,7 @@ def bit_coders(ctx, mode):
 # (W, S, MaxData, MaxSyms, PSet, Binary)
 CHAIN_QUICK = [(3, 6, 3, 3, "{1}", "TRUE"), (2, 4, 3, 2, "{1,2}", "TRUE"), (2, 6, 4, 2, "{1,2}", "TRUE"), (2, 6, 4, 3, "{2}", "FALSE"), (3, 6, 3, 2, "{2,3}", "FALSE"), (2, 8, 4, 2, "{1,2}", "FALSE")]
 CHAIN_THOROUGH = [(2, 4, 4, 3, "{1,2}", "TRUE"), (2, 4, 4, 3, "{1,2}", "FALSE"), (2, 6, 5, 3, "{1,2}", "TRUE"), (2, 6, 4, 3, "{1,2}", "FALSE"),
-                  (3, 6, 3, 2, "{1,2,3}", "TRUE"), (3, 9, 4, 2, "{2,3}", "FALSE"), (2, 8, 5, 3, "{1,2}", "TRUE"), (4, 8, 3, 2, "{2,4}", "FALSE")]
+                  (3, 6, 3, 2, "{1,2,3}", "TRUE"), (3, 9, 4, 2, "{2,3}", "FALSE"), (2, 8, 5, 3, "{1,2}", "TRUE"), (4, 8, 2, 2, "{2,4}", "FALSE")]
 CHAIN_LAWS = ["StateInv", "RestoreSame", "RestoreSuffix", "RestoreConcat", "StepInverse", "ProofBridge"]
 
 
